@@ -5,10 +5,13 @@ package webserver
 import (
 	"fmt"
 	"strings"
+	"sync"
 	"testing"
+	"time"
 
 	"pgregory.net/rapid"
 
+	"github.com/jech/galene/token"
 	"github.com/jech/galene/verifkit"
 )
 
@@ -18,6 +21,28 @@ var c12hRec = verifkit.New("TestVerif_C12_HttpSurface",
 		"(none, malformed, wrong, group user, admin, bearer) x Content-Type x If-Match/If-None-Match x bodies (right-typed, wrong-typed JSON, garbage, empty, over-long, SDP valid/garbage); "+
 		"oracle: every request yields an HTTP response (a closed connection without status line = the handler died) and the server still answers afterwards; "+
 		"non-trivial = request that passes authentication and reaches a handler body (status not 401/404/301/308); distinct by request")
+
+var c12TokOnce sync.Once
+var c12Toks []string
+
+// c12Tokens creates (once) stateful tokens for the fixture group c12g.
+func c12Tokens() []string {
+	c12TokOnce.Do(func() {
+		for i, v := range []struct {
+			user  *string
+			perms []string
+		}{{sp12("john"), []string{"present"}}, {sp12(""), []string{"present"}}, {nil, []string{"present"}}, {sp12(""), []string{"admin"}}, {nil, []string{"admin"}}, {sp12("tokadmin"), []string{"admin"}}} {
+			e := time.Now().Add(24 * time.Hour)
+			name := fmt.Sprintf("c12tok%d", i)
+			if _, err := token.Update(&token.Stateful{Token: name, Group: "c12g", Username: v.user, Permissions: v.perms, Expires: &e}, ""); err == nil {
+				c12Toks = append(c12Toks, name)
+			}
+		}
+	})
+	return c12Toks
+}
+
+func sp12(s string) *string { return &s }
 
 func TestVerif_C12_HttpSurface(t *testing.T) {
 	defer c12hRec.Flush()
@@ -56,7 +81,7 @@ func TestVerif_C12_HttpSurface(t *testing.T) {
 			target += "?q=delete&filename=x"
 		}
 		hdr := map[string]string{}
-		authClass := rapid.IntRange(0, 8).Draw(t, "auth")
+		authClass := rapid.IntRange(0, 10).Draw(t, "auth")
 		if area == 2 {
 			authClass = rapid.SampledFrom([]int{4, 5, 6}).Draw(t, "adminAuth")
 		}
@@ -76,6 +101,12 @@ func TestVerif_C12_HttpSurface(t *testing.T) {
 			hdr["Authorization"] = "Bearer nosuchtoken"
 		case 8:
 			hdr["Authorization"] = "Bearer " + strings.Repeat("x.", 50)
+		case 9, 10:
+			// existing tokens for this group: with a name, with an empty name, without a name, with and without 'admin'
+			hdr["Authorization"] = "Bearer " + rapid.SampledFrom(c12Tokens()).Draw(t, "bearer")
+			if rapid.Bool().Draw(t, "alsoBasic") {
+				hdr["Authorization"] = basic("someone", "pw") + ", " + hdr["Authorization"]
+			}
 		}
 		ct := rapid.SampledFrom([]string{"", "application/json", "application/json", "text/plain", "application/jwk-set+json", "application/sdp", "application/trickle-ice-sdpfrag",
 			"application/x-www-form-urlencoded", "garbage/;;", "application/json; charset=utf-8"}).Draw(t, "contentType")
